@@ -105,6 +105,32 @@ def serve_case(res, rng, length, tmp):
     try:
         for n in nodes:
             eng.feed(f"{n};255;0;0;17;{version}")
+        if rng.random() < 0.3:
+            # a second gateway in the same process serves another firmware to its own node, and it does so from inside
+            # this gateway's event callback (i.e. between the moment a response is built here and the moment it leaves)
+            eng2 = Engine(flavour, version)
+            eng2.feed(f"9;255;0;0;17;{version}")
+            oimg2 = bytes((b * 7 + 3) & 0xFF for b in range(rng.choice([48, 128, 300])))
+            eng2.call("fw", 9, 7, 7, oimg2)
+            eng2.feed(f"9;255;4;0;0;{le(7, 7, 5, 0x1111, 0x0101)}")
+            pad2 = oimg2 + b"\xff" * ((-len(oimg2)) % 128)
+            state2 = {"n": 0, "bad": None}
+
+            def other_gateway_at_work(msg):
+                if msg.type != 4:
+                    return
+                i2 = state2["n"] % (len(pad2) // 16)
+                state2["n"] += 1
+                m0 = len(eng2.sent)
+                eng2.feed(f"9;255;4;0;2;{le(7, 7, i2)}")
+                got2 = [l for (_s, _o, l) in eng2.sent[m0:]]
+                if state2["bad"] is None and (len(got2) != 1 or got2[0].rstrip("\n").split(";")[:5] != ["9", "255", "4", "0", "3"]
+                                              or got2[0].rstrip("\n").split(";")[5][12:].lower() != pad2[16 * i2:16 * i2 + 16].hex()):
+                    state2["bad"] = (i2, got2)
+
+            eng.cb_hook = other_gateway_at_work
+            case["second_gateway"] = True
+            res.count("cases_with_a_second_gateway_at_work")
         # --- history before the image under test: an earlier image under the SAME (type, version), partly fetched,
         #     and/or another firmware being served to another node at the same time
         prior = rng.choice(["none", "none", "same-id-reloaded", "other-firmware-in-parallel", "same-id-reloaded"])
@@ -252,6 +278,10 @@ def serve_case(res, rng, length, tmp):
                 res.violation("block-response-unstable", f"block {i} served with different data on repetition / to another node", case)
                 return
             blocks[i] = data
+        if case.get("second_gateway"):
+            res.count("second_gateway_requests", state2["n"])
+            if state2["bad"] is not None:
+                res.violation("second-gateway-block-wrong", f"the other gateway of the process (node 9, firmware (7,7)) got a wrong answer for block {state2['bad'][0]}: {state2['bad'][1]!r}", case)
         P = b"".join(blocks[i] for i in range(B))
         res.count("images_reassembled")
         ok = True
